@@ -75,6 +75,20 @@ CLAIMED: dict[str, tuple[str, str, str, str, str]] = {
         "who-must-call with dominance on the per-function CFG + sibling rule + save/restore ordering",
         "DESIGN §5 C33",
     ),
+    "C32": (
+        "other",
+        "Decides a finite table: for every stdlib ast class the front end handles (statements via CFGBuilder->StmtChecker, "
+        "expressions via ExprBuilder/BranchBuilder->ExprSynthesizer/ExprChecker) and every semantic field of it, the field "
+        "is read on every accepting path of the handler chain or the node is rejected; nodes replaced by new nodes must have "
+        "had every field read; helper classes (arguments, arg, withitem, comprehension, keyword) likewise. Plus must-raise of "
+        "the generic fallbacks, the explicit rejections (parameter kinds, keywords before dispatch, multi-target, `as`, async), "
+        "and 'a built statement is dropped only if it is a compiler temporary'.",
+        "Trusted: ast parser; Python 3.12's ast._fields as the definition of 'every clause'; reads used only for an error "
+        "location count as reads; helper summaries are flow-insensitive may-reads; unresolved callees read nothing but what is "
+        "passed explicitly.",
+        "field-consumption dataflow over handler CFGs with interprocedural summaries (exhaustiveness table ast class x field)",
+        "DESIGN §5 C32",
+    ),
 }
 
 NOT_APPLICABLE: dict[str, str] = {
